@@ -73,27 +73,58 @@ def minimgClauses (r : RawSym) (a : S) (flag : Nat) (o : S) : List (String × Bo
     ("result-admits-no-proper-quotient", classes o == o.size),
     ("is_minimal-iff-classes-eq-size", (flag == 1) == (ca == a.size)) ]
 
+/-- the symbol the implementation returned (transmitted tables `o`) is isomorphic to the model's
+    symbol `r`: same size and dimension and, for some chamber e of `o`, the model's `morphism`
+    from `r` with base image e exists and is injective on 1..size (a bijection commuting with
+    every operation and preserving every degree).  The property does not pin the numbering of the
+    minimal image, so the images are compared up to isomorphism: when this holds the
+    implementation's own tokens are echoed as the model payload, otherwise the model's symbol is
+    printed and the orchestrator reports the disagreement with both sides. -/
+def isoImage (r : DSymData) (o : RawSym) : Bool :=
+  match o.toSym with
+  | .ok y =>
+    !mPanics y && !mPanics r && r.size == y.size && r.dim == y.dim &&
+    (List.range y.size).any fun e0 =>
+      match morphism (ofSym r) (ofSym y) (e0 + 1) with
+      | .ok f =>
+        let img := (List.range r.size).map fun d0 => f.getD (d0 + 1) 0
+        img.all (fun x => 1 ≤ x && x ≤ y.size) &&
+          (List.range r.size).all fun k => (List.range k).all fun j => img.getD k 0 != img.getD j 0
+      | _ => false
+  | _ => false
+
 def parseMaps (out : Array String) : Option (List (List Nat)) :=
   run (do let x ← P.natss; let e ← P.atEnd; if e then pure x else failure) out
 
+/-- ops with suffix `_s`: the same question asked of the same tables held in another
+    implementation of the `DSet` / `DSym` traits (`SimpleDSym`, `SimpleDSet`, generator output);
+    same model, same Spec -/
 def handler : Handler := fun op inp out =>
   let bad := ("-", fail "driver-cannot-parse-input")
   match op with
-  | "minimg" =>
+  | "minimg" | "minimg_s" =>
     match run P.rawSym inp with
     | none => bad
     | some s =>
-      let model : String := match s.toSym with
+      let res : Option (Bool × DSymData) := match s.toSym with
         | .ok y =>
-          if mPanics y then "PANIC" else
+          if mPanics y then none else
           (match isMinimalUF (ofSym y), minimalImage y with
-           | .ok fl, .ok r => s!"{b2n fl} {encSym r}"
-           | _, _ => "PANIC")
-        | _ => "PANIC"
+           | .ok fl, .ok r => some (fl, r)
+           | _, _ => none)
+        | _ => none
+      let model : String := match res with
+        | some (fl, r) => s!"{b2n fl} {encSym r}"
+        | none => "PANIC"
       match run (do let f ← P.nat; let o ← P.rawSym; let e ← P.atEnd; if e then pure (f, o) else failure) out with
-      | some (flag, o) => (model, check (minimgClauses s (specS s) flag (specS o)))
+      | some (flag, o) =>
+        -- flag compared exactly, image up to isomorphism
+        let model := match res with
+          | some (fl, r) => if b2n fl == flag && isoImage r o then joinToks out.toList else model
+          | none => model
+        (model, check (minimgClauses s (specS s) flag (specS o)))
       | none => (model, fail "no-minimal-image-returned")
-  | "ismin" =>
+  | "ismin" | "ismin_s" =>
     match run (do let k ← P.nat; let s ← P.rawSym; pure (k, s)) inp with
     | none => bad
     | some (kind, s) =>
@@ -106,7 +137,7 @@ def handler : Handler := fun op inp out =>
         (model, check (domainClauses "input" s a (kind == 1) ++
           [("is_minimal-iff-classes-eq-size", (flag == 1) == (classes a == a.size))]))
       | _ => (model, fail "no-flag-returned")
-  | "auts" =>
+  | "auts" | "auts_s" =>
     match run (do let k ← P.nat; let s ← P.rawSym; pure (k, s)) inp with
     | none => bad
     | some (kind, s) =>
@@ -129,7 +160,7 @@ def handler : Handler := fun op inp out =>
                let fa := fs.toArray
                (List.range fa.size).all fun k => (List.range k).all fun j =>
                  !(mapEq a.size (fa.getD k #[]) (fa.getD j #[]))) ]))
-  | "morph" =>
+  | "morph" | "morph_s" =>
     match run (do let k ← P.nat; let a ← P.rawSym; let b ← P.rawSym; pure (k, a, b)) inp with
     | none => bad
     | some (kind, ra, rb) =>
@@ -156,16 +187,18 @@ def handler : Handler := fun op inp out =>
                | f => isMorphism a b f.toArray && f.toArray.getD 1 0 == e && f.length == a.size + 1),
             ("some-iff-a-morphism-with-that-base-image-exists", es.all fun e =>
                (search a b e).isSome == !(ans.getD e []).isEmpty) ]))
-  | "cover" =>
+  | "cover" | "cover_s" =>
     match run (do let a ← P.rawSym; let c ← P.rawSym; pure (a, c)) inp with
     | none => bad
     | some (ra, rc) =>
-      let one (s : RawSym) : Option String := match s.toSym with
+      let one (s : RawSym) : Option DSymData := match s.toSym with
         | .ok y => if mPanics y then none else
-          (match minimalImage y with | .ok r => some (encSym r) | _ => none)
+          (match minimalImage y with | .ok r => some r | _ => none)
         | _ => none
-      let model : String := match one ra, one rc with
-        | some x, some y => s!"{x} {y}"
+      let mx := one ra
+      let my := one rc
+      let model : String := match mx, my with
+        | some x, some y => s!"{encSym x} {encSym y}"
         | _, _ => "PANIC"
       let a := specS ra
       let c := specS rc
@@ -174,6 +207,10 @@ def handler : Handler := fun op inp out =>
       | some (ox, oy) =>
         let x := specS ox
         let y := specS oy
+        -- both images up to isomorphism
+        let model := match mx, my with
+          | some ix, some iy => if isoImage ix ox && isoImage iy oy then joinToks out.toList else model
+          | _, _ => model
         (model, check (domainClauses "base" ra a true ++ domainClauses "cover" rc c true ++
           [ ("cover-maps-onto-base-by-a-morphism", mapsOnto c a),
             ("minimal-image-of-base-is-a-connected-symbol", x.valid && x.connected && x.branched),
@@ -181,7 +218,7 @@ def handler : Handler := fun op inp out =>
             ("base-maps-onto-its-minimal-image", mapsOnto a x),
             ("cover-maps-onto-its-minimal-image", mapsOnto c y),
             ("minimal-images-of-symbol-and-cover-isomorphic", isomorphic x y) ]))
-  | "fold" =>
+  | "fold" | "fold_s" =>
     match run (do let k ← P.nat; let s ← P.rawSym; let n ← P.nat
                   let ps ← P.rep n (do let d ← P.nat; let e ← P.nat; pure (d, e)); pure (k, s, ps)) inp with
     | none => bad
